@@ -650,7 +650,7 @@ def rule_c16(an, res):
                             v = unb[0].ent
                             if he[0][2] is True and not (v.kind == 'AUXHEAD' and v.arg == aux):
                                 ok, why = False, 'ttl head is expired but the victim is %r' % v
-                            if he[0][2] is False and v.kind != 'BACK':
+                            if he[0][2] is False and not seg.names_back(v):
                                 ok, why = False, 'no entry expired (head live) but the victim is %r, not the LRU entry' % v
                         res.ob('R-PRUNE-TABLE', ok=ok)
                         res.sample(dict(container=cm.name, method=b.where, valuation=val, victim=repr(unb[0].ent)), cap=8)
